@@ -4,7 +4,7 @@ import Percival.Model.HashStep
 `pmodel hash`: line protocol for alg/sha256.c, sha1.c, md5.c, crc32c.c (driver code, C01).
 
     init a | upd a <hex> | fin a | buf a <hex> | addcnt a <k>        a ∈ {sha256, sha1, md5}
-    hmac a <key> <msg> | hmacinit a <key> | hmacupd a <hex> | hmacfin a
+    hmac a <key> <msg> | hmacip a <key> <msg> | hmacinit a <key> | hmacupd a <hex> | hmacfin a
     pbkdf2 <P> <S> <c> <dkLen> | pbkdf2sum <P> <S> <c> <dkLen>
     crc <align> <hex> | crcinit | crcupd <align> <hex> | crcfin
     big <alg> <n> <cut> <align>
@@ -33,6 +33,8 @@ def parseSlotOp : String → List String → Option SlotOp
   | "fin", [] => some .fin
   | "buf", [x] => do pure (.buf (← bytesOfHex x))
   | "hmac", [k, x] => do pure (.hmac (← bytesOfHex k) (← bytesOfHex x))
+  -- the MAC written over its own message: the same function of (key, message); the model has no aliasing
+  | "hmacip", [k, x] => do pure (.hmac (← bytesOfHex k) (← bytesOfHex x))
   | "hmacinit", [k] => do pure (.hmacinit (← bytesOfHex k))
   | "hmacupd", [x] => do pure (.hmacupd (← bytesOfHex x))
   | "hmacfin", [] => some .hmacfin
